@@ -159,3 +159,6 @@ def run(ctx, res):
     res.extra["table_rows"] = rows
     res.floor("C11.R2", "rows of the applicability table", rows, 48)
     common.strategy_selection(ctx, res, "C11.R3")
+    # the extents of the two removed parts: opening tag .. end of the opening wrapper line, start of the closing wrapper line ..
+    # closing tag; with adjacent wrapper lines the line break they share goes with the tail (exactly four lines disappear)
+    common.marker_extents(ctx, res, "C11.R4", parts=("unwrap",))
